@@ -117,6 +117,7 @@ var propImports = map[string][]imp{
 		{"C03.11/E3", "C11", "request state is accessed under the socket lock", []string{"C11.1/E3|protocol/req", "C11.1/E3|protocol/xreq"}},
 	},
 	"C04": {
+		{"C04.25/rearm-stops-previous", "C10", "a request is re-sent each time the retry interval elapses, never sooner: the retry timer armed by a transmission is stopped before the next transmission arms its own, so a re-send caused by the loss of the connection is not followed by the previous timer's re-send", []string{"C10.25/rearm-stops-previous|protocol/req"}},
 		{"C04.22/transport-leaves-message-intact", "C17", "sending does not rewrite the message: the request kept for retransmission goes out byte-identical the second time", []string{"C17.4/no-write-through"}},
 		{"C04.21/retry-inherited", "C19", "a context opened on the socket retries at the interval configured on the socket, including 0 = never (the interval is what decides whether an unanswered request is sent again)", []string{"C19.4/inheritance|protocol/req"}},
 		{"C04.20/api-copies", "C01", "the request kept for retransmission is a private copy of the bytes the caller passed: the re-send is byte-identical whatever the caller does with its buffer", []string{"C01.8/api-copies"}},
@@ -243,6 +244,7 @@ var propImports = map[string][]imp{
 		{"C17.8/api-copies", "C01", "Recv hands out a copy of the body whatever its size; the message goes back to the pool", []string{"C01.8/api-copies"}},
 	},
 	"C18": {
+		{"C18.17/rearm-stops-previous", "C10", "a deadline fires once, for the call it was armed for: a timer field is re-armed only after the timer it may still hold was stopped", []string{"C10.25/rearm-stops-previous"}},
 		{"C18.16/macat-durations", "C20", "macat hands the socket the deadline it was given: bare numbers are whole seconds (a fraction is refused rather than truncated), and a deadline that was not given is never applied", []string{"C20.4/duration", "C20.18/unset-deadline-never-applied"}},
 		{"C18.15/queue-room", "C19", "a Recv never hangs beyond its deadline on the socket lock: a receiver goroutine that re-sends into a context's queue while holding the lock needs room in it, so a queue length of 0 is refused", []string{"C19.2/E10c"}},
 		{"C18.14/waited-channel-stable", "C19", "a call parked on a channel it took from a field is woken when the field is given another channel: otherwise it times out with a message waiting in the new one, or waits for ever", []string{"C19.21/waited-channel-stable"}},
